@@ -46,6 +46,37 @@ theorem modelRun_obs (cfg : Cfg) (rs : List Round) :
   obtain ⟨q1, q2⟩ := q
   exact hf
 
+theorem modelRun_fold_state (cfg : Cfg) : ∀ (rs : List Round) (acc : List (List Ev)) (x : State),
+    (rs.foldl (fun (p : List (List Ev) × State) r =>
+      let s' := step cfg { p.2 with out := [] } r
+      (p.1 ++ [s'.out], s')) (acc, x)).2 = rs.foldl (stepR cfg) x
+  | [], _, _ => rfl
+  | r :: rs, acc, x => by
+    simp only [List.foldl_cons]
+    rw [modelRun_fold_state cfg rs]
+    rfl
+
+theorem mrPair_fold_state (cfg : Cfg) : ∀ (rs : List Round) (p : State × A),
+    (rs.foldl (fun (p : State × A) r => (stepR cfg p.1 r, round cfg p.2 r (stepR cfg p.1 r).out)) p).1 = rs.foldl (stepR cfg) p.1
+  | [], _ => rfl
+  | r :: rs, p => by
+    simp only [List.foldl_cons]
+    rw [mrPair_fold_state cfg rs]
+
+/-- the final state of the driver's `modelRun` is the model component of `mrPair` -/
+theorem modelRun_state (cfg : Cfg) (rs : List Round) : (Pyrtma.Drv.Manager.modelRun cfg rs).2 = (mrPair cfg rs).1 := by
+  have hf := modelRun_fold_state cfg rs [(init cfg).out] (init cfg)
+  have hm := mrPair_fold_state cfg rs (init cfg, ({} : A))
+  unfold mrPair
+  rw [hm]
+  unfold Pyrtma.Drv.Manager.modelRun
+  dsimp only
+  generalize (rs.foldl (fun (p : List (List Ev) × State) r =>
+      let s' := step cfg { p.2 with out := [] } r
+      (p.1 ++ [s'.out], s')) ([(init cfg).out], init cfg)) = q at hf ⊢
+  obtain ⟨q1, q2⟩ := q
+  exact hf
+
 /-- `Spec.runSpec`'s fold over the rounds and their logs is the abstract component of `mrPair`'s fold -/
 theorem pairs_fold (cfg : Cfg) : ∀ (rs : List Round) (x : State) (a : A),
     (List.zip rs (outsFrom cfg x rs)).foldl (fun a p => round cfg a p.1 p.2) a =
